@@ -1,9 +1,9 @@
 """C05 - identities unique, in range, held only by placed instances."""
 from mc.props import _cellprop
-from mc.worlds import cellcfg, cellmon
+from mc.props import _masterprop
+from mc.worlds import cellcfg, cellmon, mastercfg, mastermon
 
-BUDGET = {'quick': 60, 'thorough': 600}
-HASH_INSENSITIVE = True
+BUDGET = {'quick': 240, 'thorough': 900}
 
 
 def _k4():
@@ -21,10 +21,32 @@ def _k4():
     return cfg
 
 
+def _m1():
+    """World B: identity_groups events, restarts (force_set_identity)."""
+    cfg = mastercfg.m1()
+    cfg['idgroups'] = {'g': 1}
+    cfg['cellmonitors'] = [cellmon.mon_c05]
+    cfg['monitors'] = [mastermon.mon_c05_published]
+    cfg['templates']['ib'] = {'memory': '8M', 'cpu': '8%', 'disk': '8M',
+                              'affinity': 'b', 'identity_group': 'g',
+                              'priority': 60}
+    cfg['templates']['on']['identity_group'] = 'g'
+    cfg['events'] = mastercfg.ev(
+        ('app+', 'id'), ('app+', 'ib'), ('app+', 'on'), ('app+', 'hi'),
+        ('app-', 0), ('app-', 1), ('prio', 0, 100),
+        ('idg', 'g', 0), ('idg', 'g', 1), ('idg', 'g', 2), ('idg-', 'g'),
+        ('pres-', 's0'), ('pres+', 's0', 0),
+        ('noop',), ('restart',),
+    )
+    return cfg
+
+
 def configs(ctx):
     if ctx.quick:
-        return [('K4', _k4(), 4, 2)]
-    return [('K4', _k4(), 6, 2)]
+        return [('K4', _k4(), 4, 2),
+                ('M1', _m1(), 3, 1, _masterprop.MasterSpec)]
+    return [('K4', _k4(), 6, 2),
+            ('M1', _m1(), 5, 2, _masterprop.MasterSpec)]
 
 
 RULE = ('BFS over histories of arrivals/removals/evictions/server failure/'
